@@ -15,6 +15,9 @@ ASSUMPTIONS = [
     "sort correspondence is on the defined types and non-specified directives (built-in types are not mapped by "
     "map_schema_config; filtering commutes with a stable sort); object literals inside default values are compared "
     "with sorted field names (a default held as a Python value is printed in the field order of its input type)",
+    "a quarter of the schemas carry their own definitions of specified directives (@skip, @deprecated, ...): the "
+    "implementation passes directives with a specified name through unmapped and never prints them, so the model sees "
+    "the schema without them for sort/extend/build (they are part of the diff encoding and of the dumps)",
     "diff correspondence compares the multiset of change kinds (never the description strings) on the whole type map; "
     "the places named by the changes are covered by the theorem C19_diff_sound (witness per kind) on the model",
     "extension documents come from the generator domain of the property (add fields/interfaces/members/values/"
@@ -491,7 +494,7 @@ def run(tier):
     nschemas = 150 if quick else 900
     specs = []
     for i in range(nschemas):
-        spec = G.gen_spec(rng, size=rng.randint(1, 3), adversarial=i % 3 != 0)
+        spec = G.gen_spec(rng, size=rng.randint(1, 3), adversarial=i % 3 != 0, override_specified=i % 4 == 1)
         mode = "sdl" if i % 2 == 0 else "prog"
         try:
             s = build_schema(G.spec_to_sdl(spec)) if mode == "sdl" else G.spec_to_schema(spec, rng)
@@ -654,9 +657,9 @@ def run(tier):
             if ch:
                 viol(key, f"find_schema_changes(extend, together) reports {ch[0].description}", rep)
             # the model: extend (enc sA) (enc B) and build (enc (A + B)) against the real results
-            ecases.append([7] + G.encode_schema(s) + G.w_defs(doc))
+            ecases.append([7] + G.encode_schema(s) + G.w_defs(doc, drop_specified=True))
             emeta.append((key, rep, "Extend.extend", G.encode_schema(ext)))
-            ecases.append([6] + G.w_defs(parse(sdl_a + "\n\n" + sdl_b)))
+            ecases.append([6] + G.w_defs(parse(sdl_a + "\n\n" + sdl_b), drop_specified=True))
             emeta.append((key, rep, "Build.build", G.encode_schema(both)))
         # no-op documents return the identical object
         noops = ["{ a }", "query Q { __typename }", "fragment F on %s { __typename }" % spec.query,
